@@ -14,7 +14,7 @@ def run(ctx):
                 "copy / deepcopy / pickle (the history continues on the copy) and independence probes (a deep copy and an unpickled copy are "
                 "mutated everywhere, the original is observed again) on all Wide-family types; after every call the full public observation "
                 "(values, presence, selection, encoding, unknown fields) must equal the abstract state; non-trivial = >= 2 ops")
-    hist.run_histories(ctx, ["TMix", "TOne", "TOpt", "TRep", "TMapV", "TMapK", "TWkt", "TImpl", "Node"], 1500 if quick else 30000, 12, "observers")
+    hist.run_histories(ctx, ["TMix", "TOne", "TOpt", "TOneP", "TScal", "TRep", "TMapV", "TMapK", "TWkt", "TImpl", "Node"], 1500 if quick else 30000, 12, "observers")
 
 
 def redrive(ev):
